@@ -138,8 +138,14 @@ func (f *frame) libCall(callee *ssa.Function, c *ssa.CallCommon, base string, re
 		f.assume(fmt.Sprintf("(and (bvsle #x0000000000000000 %s) (bvsle %s (slen %s)) (=> (bvsgt (slen %s) #x0000000000000000) (bvsgt %s #x0000000000000000)))", r.term, r.term, arg(0), arg(0), r.term))
 		return r
 	case "strings.Index", "strings.LastIndex", "strings.IndexByte", "strings.IndexRune", "strings.LastIndexByte", "strings.IndexAny":
-		used("returns the byte index of an occurrence in s, or -1: -1 <= result <= len(s) - (len(substr) if string)")
+		used("returns the byte index of an occurrence in s, or -1: -1 <= result <= len(s) - (len(substr) if string); a fixed function of its arguments")
 		r := f.resultHavoc(base, resT)
+		if (callee.Name() == "Index" || callee.Name() == "LastIndex") && e.R.sortOf(c.Args[1].Type()) == "Str" {
+			// deterministic: the same logical function that contracts name as strings.Index(s, t)
+			fn := "lib!strings." + callee.Name()
+			e.R.extra(fmt.Sprintf("(declare-fun %s (Str Str) (_ BitVec 64))", fn))
+			r = SV{t: resT, term: e.define(base, e.R.sortOf(resT), fmt.Sprintf("(%s %s %s)", fn, arg(0), arg(1)))}
+		}
 		s := arg(0)
 		sub := "#x0000000000000000"
 		if e.R.sortOf(c.Args[1].Type()) == "Str" && callee.Name() != "IndexAny" {
